@@ -621,8 +621,19 @@ def classify(unit, res):
 
 
 def scan_assumptions(text):
+    """Every assumed item of the generated file: external_body / assume_specification / uninterp / assume / admit,
+    each reported with the signature line it guards."""
     found = []
-    for i, ln in enumerate(text.split('\n')):
+    lines = text.split('\n')
+    for i, ln in enumerate(lines):
         if re.search(r'external_body|assume_specification|\bassume\s*\(|\badmit\s*\(|external_type_specification|uninterp', ln):
-            found.append((i + 1, ln.strip()))
+            desc = ln.strip()
+            j = i + 1
+            # attach the item the attribute applies to
+            while re.fullmatch(r'(\s*#\[[^\]]*\]\s*)+', desc) and j < len(lines):
+                nxt = lines[j].strip()
+                if nxt:
+                    desc = desc + ' ' + nxt
+                j += 1
+            found.append((i + 1, re.sub(r'\s+', ' ', desc)))
     return found
